@@ -388,7 +388,8 @@ func (e *scEnv) runCase(cs hwCase) {
 			sb.WriteByte('\n')
 		}
 		path := e.writeFile(cs.ID, sb.String())
-		g := e.gun("grpc", gm, yamlShape, true)
+		gm["timeout"] = "120s" // a loaded machine must not turn a slow call into a deadline
+		g := e.gun("grpcfile", gm, yamlShape, true)
 		prov, err := hwDecodeProvider(map[string]interface{}{"type": "grpc/json", "file": path, "passes": 1, "continueonerror": true}, yamlShape)
 		if err != nil {
 			panic(fmt.Sprintf("case %d provider: %v", cs.ID, err))
